@@ -29,7 +29,7 @@ LAZY_FIELDS = frozenset(
 )
 WIRE_PREFIX = "__wire|"
 
-MAX_DEPTH = 14
+MAX_DEPTH = 80  # never reached on real values (finite DAGs, parent chains <= 5 levels); only a guard against cycles
 
 
 def _is_lib_obj(x):
@@ -53,8 +53,12 @@ def _fields(x):
     return out
 
 
-def canon(x, depth=0):
-    """Return a JSON-serialisable canonical form."""
+def canon(x, depth=0, memo=None):
+    """Return a JSON-serialisable canonical form.  ``memo`` (id -> form) shares the forms of library objects that
+    are reachable many times inside one value (the same Parent / Sequence hangs off every location of a collection);
+    entries are only valid within one top-level call, during which the value is not mutated."""
+    if memo is None:
+        memo = {}
     if depth > MAX_DEPTH:
         return {"#": "depth"}
     if x is None or isinstance(x, (bool, int)) and not isinstance(x, enum.Enum):
@@ -72,17 +76,17 @@ def canon(x, depth=0):
     if isinstance(x, BaseException):
         return {"#": "raise", "t": type(x).__name__}
     if isinstance(x, tuple):
-        return {"#": "tuple", "v": [canon(i, depth + 1) for i in x]}
+        return {"#": "tuple", "v": [canon(i, depth + 1, memo) for i in x]}
     if isinstance(x, list):
-        return [canon(i, depth + 1) for i in x]
+        return [canon(i, depth + 1, memo) for i in x]
     if isinstance(x, (set, frozenset)):
-        items = [canon(i, depth + 1) for i in x]
+        items = [canon(i, depth + 1, memo) for i in x]
         return {"#": "set", "v": sorted(items, key=_sort_key)}
     if isinstance(x, dict):
-        items = [[canon(k, depth + 1), canon(v, depth + 1)] for k, v in x.items()]
+        items = [[canon(k, depth + 1, memo), canon(v, depth + 1, memo)] for k, v in x.items()]
         return {"#": "dict", "v": sorted(items, key=lambda kv: _sort_key(kv[0]))}
     if isinstance(x, (types.GeneratorType, abc.Iterator)):
-        return {"#": "iter", "v": [canon(i, depth + 1) for i in x]}
+        return {"#": "iter", "v": [canon(i, depth + 1, memo) for i in x]}
     tname = type(x).__name__
     mod = type(x).__module__ or ""
     if _is_lib_obj(x):
@@ -90,8 +94,12 @@ def canon(x, depth=0):
             return {"#": tname, "v": str(x)}
         if tname == "_EmptyLocation":
             return {"#": "EmptyLocation"}
+        key = id(x)
+        if key in memo:
+            return memo[key][1]
         fields = _fields(x)
         out = {"#": tname}
+        memo[key] = (x, out)  # keep x alive so that its id cannot be reused within this call
         if tname == "Parent" and "_strand" in fields and "location" in fields:
             # Parent.__eq__ and every public accessor see only the *effective* strand (location's strand if there is
             # a non-empty location, else the explicit one); the private ``_strand`` slot is not observable and two
@@ -109,7 +117,7 @@ def canon(x, depth=0):
         for k in sorted(fields):
             if k in LAZY_FIELDS or k.startswith(WIRE_PREFIX):
                 continue
-            out[k] = canon(fields[k], depth + 1)
+            out[k] = canon(fields[k], depth + 1, memo)
         return out
     if mod.startswith("Bio."):
         if tname == "Seq":
